@@ -359,8 +359,23 @@ func bindOracles(c bindCase, o bindObs, add func(violation)) {
 			v("C05", "query-iff-outputs", fmt.Sprintf("aliases=%d query=%v sql=%s", len(seen), o.query, o.sql))
 		}
 	}
-	// C04: rectangular inserts: every generated tuple has as many values as columns
-	for _, m := range reInsert.FindAllStringSubmatch(o.sql, -1) {
+	// C04: rectangular inserts: every generated tuple has as many values as columns.  Only held against text
+	// that sqlair generated: when the query has `(...) VALUES (...)` text that its parser did not take for
+	// an insert expression (a column list it has no grammar for, such as one with backticks) that text is
+	// the caller's and is passed through as it is.
+	insertSegs := 0
+	if dump, err := sqlair.VerifParse(c.query); err == nil {
+		for _, sg := range segmentsOf(dump) {
+			if sg.kind == "AI" || sg.kind == "CI" || sg.kind == "BI" {
+				insertSegs++
+			}
+		}
+	}
+	allInserts := reInsert.FindAllStringSubmatch(o.sql, -1)
+	if len(allInserts) != insertSegs {
+		allInserts = nil
+	}
+	for _, m := range allInserts {
 		ncols := countTop(m[1])
 		tuples := reTuple.FindAllStringSubmatch(m[2], -1)
 		for _, t := range tuples {
